@@ -67,6 +67,10 @@ use std::sync::OnceLock;
 const Y1980: i64 = 315_532_800;
 const Y2060: i64 = 2_840_140_800;
 const PRECISIONS: [u32; 4] = [0, 123_000_000, 123_456_000, 123_456_789];
+/// fractions whose FIRST digits are zeros, whose last digits are zeros, single digits, the extremes: every probe
+/// takes one of them (by its index) in place of the three-digit precision
+const ODD_FRACTIONS: [u32; 12] =
+    [45_000_000, 7_000_000, 1, 500_000_000, 120_000_000, 999_999_999, 1_000, 100_000, 90_000_000, 10, 1_001_000, 900_000_000];
 
 fn off_at(tz: &Tz, secs: i64) -> i64 {
     let ndt = chrono::DateTime::<Utc>::from_timestamp(secs, 0).expect("instant").naive_utc();
@@ -710,6 +714,7 @@ fn exec_zone(rest: &str, out: &mut CaseOut) {
     for (pi, secs) in probes.iter().copied().enumerate() {
         let corr = pi < 2; // correspondence requests on t-1 and t
         for (qi, ns) in PRECISIONS.iter().copied().enumerate() {
+            let ns = if qi == 1 { ODD_FRACTIONS[(pi + (secs as usize % 7)) % ODD_FRACTIONS.len()] } else { ns };
             let dt0 = match tz.timestamp_opt(secs, ns).single() {
                 Some(d) => d,
                 None => continue,
